@@ -112,6 +112,7 @@ class ClassSpec:
     invariant: list = dataclasses.field(default_factory=list)   # over self.<field>
     ghost_fields: dict = dataclasses.field(default_factory=dict)
     bases: list = dataclasses.field(default_factory=list)
+    init: dict = dataclasses.field(default_factory=dict)       # (ghost) field -> spec expr at construction
 
 
 def class_spec(**kw):
